@@ -74,6 +74,32 @@ def gen_reference(rng, n, geometry):
     elif geometry in ("axis", "diagonal", "intdir"):
         pos, d = collinear_positions(rng, n, geometry)
         info["direction"] = d
+    elif geometry == "nearly":
+        # generic, but one anchor makes a small (well-conditioned) angle with its frame neighbours: probes
+        # collinearity tolerances that are too lax or not relative to the bond vectors
+        pos = None
+        for _ in range(60):
+            cand = [list(p) for p in generic_positions(rng, n, edges)]
+            adj = gen.adjacency(n, edges)
+            anchors = [i for i in range(n) if len(adj[i]) >= 2]
+            a = rng.choice(anchors)
+            n1, n2 = sorted(adj[a])[:2]
+            p0, p2 = np.array(cand[a]), np.array(cand[n2])
+            e1 = (p2 - p0) / np.linalg.norm(p2 - p0)
+            u = np.cross(e1, np.array(gen.unit_vec(rng)))
+            if np.linalg.norm(u) < 0.1:
+                continue
+            u /= np.linalg.norm(u)
+            theta = rng.uniform(2.5e-3, 3e-2)
+            L1 = rng.uniform(0.08, 0.3)
+            cand[n1] = list(map(float, p0 + L1 * (math.cos(theta) * e1 * rng.choice([-1, 1]) + math.sin(theta) * u)))
+            if _well_separated(cand) and _anchors_generic(cand, edges, n, 2e-3):
+                pos = cand
+                info["near_collinear_angle"] = theta
+                break
+        if pos is None:
+            pos = generic_positions(rng, n, edges)
+            info["geometry"] = "generic"
     else:  # mixed: a collinear run glued to a generic remainder
         pos = generic_positions(rng, n, edges)
         adj = gen.adjacency(n, edges)
@@ -129,8 +155,9 @@ def gen_species(rng, tier, focus):
     else:
         n = rng.randint(3, 14) if tier == "quick" or rng.random() < 0.8 else rng.randint(15, 40)
     if n >= 3:
-        w = {"C01": [3, 2, 2, 2, 2], "C02": [3, 2, 2, 2, 2], "C03": [6, 1, 1, 1, 2], "C04": [6, 1, 1, 1, 1], "C17": [2, 2, 2, 2, 2]}[focus]
-        geometry = rng.choices(["generic", "axis", "diagonal", "intdir", "mixed"], weights=w)[0]
+        w = {"C01": [3, 2, 2, 2, 2, 1], "C02": [3, 2, 2, 2, 2, 3], "C03": [6, 1, 1, 1, 2, 2], "C04": [6, 1, 1, 1, 1, 1],
+             "C17": [2, 2, 2, 2, 2, 2]}[focus]
+        geometry = rng.choices(["generic", "axis", "diagonal", "intdir", "mixed", "nearly"], weights=w)[0]
         edges, names, pos, info = gen_reference(rng, n, geometry)
     else:
         edges = [(0, 1)] if n == 2 else []
@@ -187,7 +214,7 @@ def gen_species(rng, tier, focus):
 
 def rigid(rng, positions=None):
     R = gen.random_rotation(rng)
-    t = gen.rvec(rng, rng.choice([0.0, 1.0, 30.0]))
+    t = gen.rvec(rng, rng.choice([0.0, 1.0, 30.0, 100.0]))
     if positions is not None and rng.random() < 0.3:
         # a rotation about an axis through one reference atom: that atom (often an anchor) stays where it was
         # while its frame neighbours move
@@ -673,7 +700,7 @@ def _execute(trace, ctx, ref_spec, tgt_spec, scale, n, m, ref_pos0, tgt_pos0):
             check_c01(pos, rpos)
         if op["conf"] in ("rigid", "other_instance") or (op["conf"] == "construction"):
             check_c02(op, pos, rpos, coord_scale)
-        if op["conf"] in ("deformed", "one_moved", "rigid", "other_instance", "construction"):
+        if op["conf"] in ("deformed", "one_moved", "rigid", "other_instance", "construction", "construction_object"):
             check_c03_shape(pos, rpos)
         if op["conf"] == "one_moved":
             check_c03_locality(op, pos, rpos)
